@@ -63,7 +63,7 @@ func profiles() []profile {
 		{name: "galactica-boundary", opt: g3, targetGL: 41_000_000},
 		{name: "poa-galactica", opt: base, targetGL: 39_000_000},
 		{name: "poa-smallgas", opt: base, extra: sim.Extra{GasLimit: 1_000_700}},
-		{name: "poa-fullblock", opt: base, extra: sim.Extra{GasLimit: 2_000_000}, filler: true},
+		{name: "poa-fullblock", opt: base, extra: sim.Extra{GasLimit: 2_000_050}, filler: true},
 		{name: "pos", opt: pos, setBenef: true},
 	}
 }
